@@ -99,6 +99,11 @@ class C02(HistoryProperty):
         dg = U.DictGen(rng, cfg)
         dg.MUTATIONS = ["repeat"] * 4 + ["never"] * 3 + ["permute"] * 3 + ["change", "change", "delete", "add", "sibling", "fresh", "template"]
         ops = gen_history(rng, cfg, spec, dictgen=dg)
+        # validate() / keys() asked BEFORE an evaluation with the same dictionary: what they have to evaluate on the way (a
+        # dispatch, a bind source) is stored like any other value, with its effects
+        for k in range(len(ops) - 1, -1, -1):
+            if rng.random() < 0.2:
+                ops.insert(k, dict(ops[k], op=rng.choice(["validate", "keys", "validate"]), mut="asked-first"))
         # effects attached AFTER the first evaluations (third-party style: ds.add_effects(...)) must run from then on
         derived_from = {n["base"] for n in spec["nodes"] if n["k"] == "derive"}
         cands = [n["id"] for n in spec["nodes"] if n["k"] == "dataset" and n["id"] not in derived_from and n.get("cache") == "recording"]
@@ -165,6 +170,19 @@ class C02(HistoryProperty):
             checked_repeat = False
             # effects of derived datasets: a copy of their origin's list, taken when they were derived (= program construction)
             member_effects = {n["id"]: by_id[family_root(spec, n["id"])].get("effects", 0) for n in nodes if n["k"] == "derive"}
+
+            def accept_for(op):
+                # a family of derived datasets stores under one cache name but each member runs its OWN effects
+                accept = {}
+                for d, cnt in member_effects.items():
+                    root = by_id[family_root(spec, d)]
+                    accept.setdefault(root["name"], {root.get("effects", 0)}).add(cnt)
+                if op["node"] in member_effects:
+                    accept[by_id[family_root(spec, op["node"])]["name"]] = {member_effects[op["node"]]}
+                elif by_id[op["node"]]["k"] == "dataset" and by_id[op["node"]]["name"] in accept:
+                    accept[by_id[op["node"]]["name"]] = {by_id[op["node"]].get("effects", 0)}
+                return accept
+
             for i, op in enumerate(case["ops"]):
                 if op["op"] == "register":
                     if op["ds"] in w.prog.obj and ("n" not in op["impl"] or op["impl"]["n"] in w.prog.obj):
@@ -180,6 +198,15 @@ class C02(HistoryProperty):
                         else:
                             n["effects"] = n.get("effects", 0) + op["n"]  # the model's effect count (by_name shares the node)
                         res.bump("effects_added_late")
+                    continue
+                if op["op"] in ("validate", "keys"):
+                    log_start = len(w.log.events)
+                    w.do(op)
+                    res.bump("validate_or_keys_ops")
+                    v = self._check_effects(w, log_start, by_name, res, accept_for(op))
+                    if v:
+                        res.violate(v[0], op_index=i, node=op["node"], o=op["o"], during=op["op"], **v[1])
+                        break
                     continue
                 before = w.snapshot_counts()
                 log_start = len(w.log.events)
@@ -202,16 +229,7 @@ class C02(HistoryProperty):
                     if twice:
                         res.violate("shared-dependency-ran-twice", op_index=i, node=op["node"], o=op["o"], bodies=twice)
                         break
-                # a family of derived datasets stores under one cache name but each member runs its OWN effects
-                accept = {}
-                for d, cnt in member_effects.items():
-                    root = by_id[family_root(spec, d)]
-                    accept.setdefault(root["name"], {root.get("effects", 0)}).add(cnt)
-                if op["node"] in member_effects:
-                    accept[by_id[family_root(spec, op["node"])]["name"]] = {member_effects[op["node"]]}
-                elif by_id[op["node"]]["k"] == "dataset" and by_id[op["node"]]["name"] in accept:
-                    accept[by_id[op["node"]]["name"]] = {by_id[op["node"]].get("effects", 0)}
-                v = self._check_effects(w, log_start, by_name, res, accept)
+                v = self._check_effects(w, log_start, by_name, res, accept_for(op))
                 if v:
                     res.violate(v[0], op_index=i, node=op["node"], o=op["o"], **v[1])
                     break
